@@ -332,10 +332,7 @@ func tryReplay(P *Program, repo string, o *Obligation, scratch string) (bool, ma
 	var argNames []string
 	var decls []string
 	for i, p := range fn.Params {
-		n := p.Name()
-		if n == "" || n == "_" {
-			n = fmt.Sprintf("p%d", i)
-		}
+		n := paramNameOf(fn, i)
 		e, ok := lb.lit(n, p.Type(), 0)
 		if !ok {
 			info["status"] = fmt.Sprintf("cannot build a Go value for parameter %s (%s) from the model", n, p.Type())
